@@ -164,6 +164,17 @@ def run(chk):
                           sep=rng.choice(['\n', ';']), comments=rng.random() < 0.3, parens=rng.random() < 0.3,
                           break_ops=rng.random() < 0.3)
         descs.append(render.grammar(g, st, bm=(i % 5 == 4)))
+    # identifiers that merely start with a word of the description language, in every naming role
+    words = ['let', 'in', 'where', 'class', 'between', 'ignore', 'ignored', 'override', 'pass', 'requires', 'grammar',
+             'extends', 'left', 'right', 'infix', 'prefix', 'postfix', 'mixfix', 'True', 'False', 'None', 'super', 'kw']
+    for w in words:
+        for nm in (w + 'ter', w + 'X', w + '_1', w.upper() + 'x'):
+            descs.append('start = %s\n%s = "a"\n' % (nm, nm))
+            descs.append('class K {\n    %s: "a"\n    other: "b"\n}\n' % nm)
+            descs.append('class K {\n    let %s: "a"\n    other: "b"\n}\n' % nm)
+            descs.append('start = let %s = "a" in `%s`\n' % (nm, nm))
+            descs.append('T(%s) = %s\nstart = T("a")\n' % (nm, nm))
+            descs.append('start = "a" %s "b"\n' % nm)
     base = list(descs)
     for d in base:
         for _ in range(10 if chk.tier == 'quick' else 40):
